@@ -142,7 +142,13 @@ def _shape_to_axes(shape):
 def m_full(shape, fill_value, *a, **k):
     axes, dom = _shape_to_axes(shape)
     if isinstance(fill_value, A):
-        raise Unsupported("np.full with array fill")
+        # broadcast copy of an array into the requested shape
+        if sym._align(axes, fill_value.axes) != tuple(axes):
+            raise ShapeError("could not broadcast fill array into shape")
+        if set(fill_value.axes) - {ONE}:
+            if dom != fill_value.dom and not Hooks.domcheck(dom, fill_value.dom, "np.full(shape, array)"):
+                raise ShapeError("could not broadcast fill array into shape")
+        return A(axes, fill_value.e, dom)
     return A(axes, lift(fill_value), dom)
 
 
@@ -457,9 +463,18 @@ def build_models(interp):
     def nd_getitem(arr, idx):
         if isinstance(idx, (A, S)) and arr.ndim == 1 and arr.size <= 64:
             ie = idx.e
-            e = sym.rat(arr[-1].item())
-            for k in range(arr.size - 2, -1, -1):
-                e = ite(sp.Eq(ie, k), sym.rat(arr[k].item()), e)
+            if sym.const_leaved(ie) or ie.is_Integer:
+                def look(k):
+                    if not k.is_Integer or not (-arr.size <= int(k) < arr.size):
+                        raise Unsupported("table index %s out of range" % k)
+                    if id(arr) in interp.named_tables:
+                        return interp.table_symbol(arr, int(k))
+                    return sym.rat(arr[int(k)].item())
+                e = sym.map_leaves(ie, look)
+            else:
+                e = sym.rat(arr[-1].item())
+                for k in range(arr.size - 2, -1, -1):
+                    e = ite(sp.Eq(ie, k), sym.rat(arr[k].item()), e)
             if isinstance(idx, A):
                 return A(idx.axes, e, idx.dom)
             return S(e)
